@@ -1218,8 +1218,12 @@ func (r *c14Run) genBeh(nsubs int, allowFaults bool) []c14Beh {
 			switch v := r.rng.Intn(100); {
 			case v < 50:
 				x.Rest = "done"
-			case v < 75:
+			case v < 70:
 				x.Rest = "fail"
+			case v < 75:
+				// keeps failing with the unknown-json-ld-context text: the job climbs over the failed threshold AND is one
+				// of those Run does not replay - it must stay on the shelf (visible as failed) across restarts
+				x.Rest = "failCtx"
 			case v < 90:
 				x.Rest = "notDone"
 			default:
